@@ -24,7 +24,9 @@ def priv_ok(cls, b):
     if cls == CLS_SECP:
         return int(len(b) == 32 and 0 < int.from_bytes(b, "big") < K1.n)
     if cls == CLS_KHOLAW:
-        return int(len(b) == 64)
+        # 64 bytes; the left half is the scalar (bit 255 ignored by the multiplication): a scalar that is a
+        # multiple of the group order has no public key -- such key bytes are invalid
+        return int(len(b) == 64 and (int.from_bytes(b[:32], "little") & ((1 << 255) - 1)) % ED.L != 0)
     if cls == CLS_ED:
         return int(len(b) == 32)
     raise ValueError(cls)
